@@ -34,8 +34,7 @@ var reAssign = regexp.MustCompile(`^([_a-zA-Z][_a-zA-Z0-9]*)=(.*)`)
 // initFile / initFS: FILENAME and FS as BEGIN (or -v) left them. FILENAME is whatever was assigned last — by `setFile` when an
 // input is opened, or by a FILENAME=… operand; neither it nor any other variable decides WHICH inputs are read: `had` is set
 // by operands that name an input, and by nothing else. A record carries the FS in force when it was read.
-func specStream(args []string, stdin []string, files map[string][]string, initFile, initFS string) (recs []srec, fatal bool, final srec) {
-	var vars [3]string
+func specStream(args []string, stdin []string, files map[string][]string, initFile, initFS string, vars [3]string) (recs []srec, fatal bool, final srec) {
 	nr := 0
 	had := false
 	fs := initFS
@@ -145,6 +144,11 @@ func hasOp(cs *Case, kind string) bool {
 
 // touchesFS: FS is assigned somewhere (by an operand, an ARGV element written by the program, or the program)
 func touchesFS(cs *Case) bool {
+	for i := 0; i+1 < len(cs.Vars); i += 2 {
+		if cs.Vars[i] == "FS" {
+			return true
+		}
+	}
 	for _, a := range cs.Args {
 		if strings.HasPrefix(a, "FS=") {
 			return true
@@ -276,6 +280,21 @@ func fmtE(tag int, r srec) string {
 func flatExpected(cs *Case) (want string, fatal bool) {
 	var parts []string
 	zero := srec{}
+	// Config.Vars are applied, in order, before BEGIN
+	for i := 0; i+1 < len(cs.Vars); i += 2 {
+		switch name, val := cs.Vars[i], cs.Vars[i+1]; name {
+		case "FILENAME":
+			zero.File = val
+		case "FS":
+			zero.FS = val
+		default:
+			for k, n := range varNames {
+				if n == name {
+					zero.Vars[k] = val
+				}
+			}
+		}
+	}
 	for _, o := range cs.Begin {
 		switch o.K {
 		case "e":
@@ -286,7 +305,7 @@ func flatExpected(cs *Case) (want string, fatal bool) {
 			zero.FS = o.S
 		}
 	}
-	recs, fatal, final := specStream(applyArgvEdits(cs), cs.Stdin, cs.Files, zero.File, zero.FS)
+	recs, fatal, final := specStream(applyArgvEdits(cs), cs.Stdin, cs.Files, zero.File, zero.FS, zero.Vars)
 	// per range rule: the pattern values of the records that reached the rule so far (a record abandoned by an earlier rule
 	// does not reach it); selection is positional over that history: some j <= i satisfies b and nothing in j..i-1 satisfies e
 	type be struct{ b, e bool }
